@@ -232,6 +232,7 @@ size_t Decode(const char *base64_ptr, size_t base64_len, void *raw_data_ptr, siz
 
     size_t w_pos = 0;
     uint8_t *out_bytes = static_cast<uint8_t*>(raw_data_ptr);
+    uint8_t tmp = 0;    //! 未凑满的字节先放这里，凑满了才写出，否则会多写一个字节
 
     for (size_t r_pos = 0; r_pos < base64_len; r_pos++) {
         char c = base64_ptr[r_pos];
@@ -244,18 +245,18 @@ size_t Decode(const char *base64_ptr, size_t base64_len, void *raw_data_ptr, siz
 
         switch (r_pos & 0x3) {
             case 0:
-                out_bytes[w_pos] = v << 2;
+                tmp = v << 2;
                 break;
             case 1:
-                out_bytes[w_pos++] |= v >> 4;
-                out_bytes[w_pos] = v << 4;
+                out_bytes[w_pos++] = tmp | (v >> 4);
+                tmp = v << 4;
                 break;
             case 2:
-                out_bytes[w_pos++] |= v >> 2;
-                out_bytes[w_pos] = v << 6;
+                out_bytes[w_pos++] = tmp | (v >> 2);
+                tmp = v << 6;
                 break;
             case 3:
-                out_bytes[w_pos++] |= v;
+                out_bytes[w_pos++] = tmp | v;
                 break;
         }
     }
